@@ -27,7 +27,8 @@ Conf2 == {"none", "validFirst", "validSecond"}
 \* stmt2: a second AuthnStatement after the one the scenario varies, its SessionNotOnOrAfter comfortably valid or long past.
 \* (The library takes exactly one statement: two are refused as such, which the acceptance side leaves open.)
 Stmt2 == {"none", "valid", "expired"}
-Scn == [present : SUBSET Bounds, focus : Focus, d : Ds, k : Ks, slack : Slacks, spelling : Spellings, conf2 : Conf2, stmt2 : Stmt2]
+Scn == [present : SUBSET Bounds, focus : Focus, d : Ds, k : Ks, slack : Slacks, spelling : Spellings, conf2 : Conf2, stmt2 : Stmt2,
+        tz : {"UTC", "east9", "west5"}]          \* time zone of the SP process: instants are UTC whatever it is
 
 Comfort(b) == IF b \in {"cNB", "sNB"} THEN -3 * Day ELSE 3 * Day
 
@@ -55,6 +56,7 @@ WellFormed(s) ==
     /\ (s.focus \in {"issueLow", "issueHigh"} => s.d # -Far)
     /\ (s.conf2 # "none" => s.focus \in {"sNOOA", "sNB", "sOrder"} /\ s.k = 0 /\ s.spelling = "Z")
     /\ (s.spelling \in {"offPlus", "offMinus"} => s.k = 0 /\ s.slack \in {0, 60})
+    /\ (s.tz # "UTC" => s.conf2 = "none" /\ s.stmt2 = "none" /\ s.k = 0 /\ s.spelling = "Z" /\ s.slack \in {0, 60} /\ s.d \in {-2, 2, -Far, Far})
     /\ (s.stmt2 # "none" => s.conf2 = "none" /\ s.k = 0 /\ s.spelling = "Z" /\ s.slack \in {0, 60} /\ s.d \in {-Far, Far} /\ s.focus \in {"sess", "cNOOA"})
 
 VARIABLES scn, pc, verdict, nooa
@@ -123,7 +125,7 @@ ExpectedExpiry == IF P("sess") THEN V("sess") ELSE V("cNOOA")
 
 Emit == /\ pc = "done" /\ pc' = "emitted"
         /\ PrintT(<<"CASE", ToJson([scn |-> [present |-> scn.present, focus |-> scn.focus, d |-> scn.d, k |-> scn.k,
-                                             slack |-> scn.slack, spelling |-> scn.spelling, conf2 |-> scn.conf2, stmt2 |-> scn.stmt2],
+                                             slack |-> scn.slack, spelling |-> scn.spelling, conf2 |-> scn.conf2, stmt2 |-> scn.stmt2, tz |-> scn.tz],
                                     vals |-> [b \in Bounds |-> IF P(b) THEN ToString(V(b)) ELSE "absent"], issue |-> Issue(scn),
                                     model |-> verdict, mustAccept |-> MustAccept, mustReject |-> MustReject,
                                     expiry |-> IF ExpiryKnown THEN ToString(ExpectedExpiry) ELSE "unspecified"])>>)
